@@ -287,6 +287,36 @@ func c09CheckBuild(res *engine.Result, sec *ref.S35Section, events bool) {
 	res.Outcomes = append(res.Outcomes, engine.Hash64(ref.S35SectionBytes(sec)))
 }
 
+// ---- scenario "type-x-sub-segments": every segmentation_type_id with the sub-segment flag set -------------------
+
+type c09TypeSubCase struct {
+	TypeID int `json:"segmentation_type_id"`
+}
+
+// For each of the 256 type ids a time_signal with one descriptor is built through the setters with
+// SetHasSubSegments(true) (after SetTypeID; c09BuildSeg's order) and sub-segment numbers 2/4, then with the flag
+// clear: the encoding carries the two sub-segment bytes exactly for the types defined to have them (0x34, 0x36),
+// decodes back and re-encodes to the same bytes.
+func c09CheckTypeSub(c c09TypeSubCase) engine.Result {
+	var res engine.Result
+	for _, hasSub := range []bool{true, false} {
+		for _, segs := range [][2]uint8{{1, 3}, {0, 0}} {
+			sec := ref.S35Canonical()
+			sec.CmdType, sec.Time, sec.PTSAdj = ref.S35CmdTime, ref.S35Time{Specified: true, PTS: 0x123456789 & ref.S35Mask33}, 5
+			g := ref.S35Seg{EventID: 0x01020304 + uint32(c.TypeID), Program: true, NotRestricted: true, Web: true, NoBlackout: true, Archive: true, Device: 3,
+				UPIDType: 0x09, UPID: []byte("SIGNAL:x"), TypeID: uint8(c.TypeID), SegNum: segs[0], SegsExpected: segs[1], HasSub: hasSub, SubNum: 2, SubExpected: 4}
+			sec.Descs = []ref.S35Desc{c09SegD(g)}
+			res.Nontrivial++
+			c09CheckBuild(&res, &sec, false)
+			if len(res.Fail) > 6 {
+				return res
+			}
+		}
+	}
+	res.Outcome(c.TypeID)
+	return res
+}
+
 // ---- scenario "over-wide-values": arguments wider than their field ------------------------------------------
 
 type c09WideCase struct {
@@ -1110,6 +1140,16 @@ func init() {
 					return res
 				},
 				Batch: 1,
+			},
+			&engine.Enum[c09TypeSubCase]{
+				Name: "type-x-sub-segments",
+				Rule: "all 256 segmentation_type_id values x sub-segment flag set (after SetTypeID) / clear x segment numbers {1/3, 0/0}: a time_signal with one descriptor built through Create* and setters in two call orders; the encoding must be the canonical section (sub_segment_num / sub_segments_expected present exactly for the types defined to carry them, 0x34 and 0x36, when the flag is set), decode back to the same values, re-encode to the same bytes",
+				Gen: func(r *engine.Run, emit func(c09TypeSubCase)) {
+					for t := 0; t < 256; t++ {
+						emit(c09TypeSubCase{t})
+					}
+				},
+				Check: c09CheckTypeSub, Batch: 4,
 			},
 			&engine.Enum[c09WideCase]{
 				Name: "over-wide-values",
